@@ -41,6 +41,7 @@ VALUE_RULES = {
     "C15.a": "quadrature tables folded to numbers",
     "C15.b": "quadrature tables folded to numbers",
     "C15.c": "quadrature tables folded to numbers",
+    "C15.d": "functools cache around a function returning ndarrays: object identity of the returned arrays across requests",
     "C16.a": "hidden-state analysis",
     "C16.b": "attribute sets: passed vs read",
     "C16.e": "hidden-state analysis",
